@@ -347,9 +347,12 @@ def run_launch(tier, seed, fails, mism, tags, samples):
             block = r.choice([1, 4, 16])
             slack = 2 * block + 3
             # ---- real CPU contexts
-            for cname, mk in (("cpu_serial", lambda: xo.ContextCpu()), ("cpu_openmp", lambda: xo.ContextCpu(omp_num_threads=2))):
+            # every OpenMP context is an OpenMP context: also one thread, three threads and 'auto'
+            omp_n = r.choice([2, 3, "auto"])
+            for cname, nthr in (("cpu_serial", 0), ("cpu_openmp", 1), ("cpu_openmp", omp_n)):
                 try:
-                    c = mk()
+                    c = xo.ContextCpu(omp_num_threads=nthr)
+                    tags[f"ctx.{cname}.{nthr}"] += 1
                     c.add_kernels(sources=[src], kernels={name: xo.Kernel(args=[xo.Arg(xo.Int32, name=lim), xo.Arg(xo.Int32, pointer=True, name="cnt"), xo.Arg(xo.Float64, pointer=True, name="y")], n_threads=lim)},
                                   extra_headers=["#include <stdint.h>"])
                 except Exception as ex:
